@@ -55,7 +55,7 @@ class Built:
 
 def build(nleaves: int, skel_i: int, ops: List[int], kinds: List[int], attach: List[int], spelling: int, brackets: int, dup_rc: int = 0) -> Built:
     """render; ops/attach are per inner node in pre-order, kinds per leaf left to right.
-    dup_rc=1: the last rc leaf re-uses the first rc key (duplicate keys in one expression)."""
+    dup_rc=1: the last rc leaf re-uses the first rc key and the last fc key re-uses the first fc key (duplicate keys in one expression)."""
     skel = SKELETONS[nleaves][skel_i]
     b = Built()
     sp = SPELL[spelling]
@@ -104,4 +104,8 @@ def build(nleaves: int, skel_i: int, ops: List[int], kinds: List[int], attach: L
         last = b.rc[-1]
         b.text = b.text.replace(f"[{last}]", f"[{b.rc[0]}]")
         b.rc = b.rc[:-1]
+    if dup_rc and len(b.fc) >= 2:
+        last = b.fc[-1]
+        b.text = b.text.replace(f"[{last}]", f"[{b.fc[0]}]")
+        b.fc = b.fc[:-1]
     return b
